@@ -164,6 +164,8 @@ struct Params {
     senders: usize,
     blockers: usize,
     hold_yields: usize,
+    /// the backend address had an earlier life: its queue was created and fully released before
+    reuse_address: bool,
 }
 
 fn scenario(p: &Params) {
@@ -180,6 +182,14 @@ fn scenario(p: &Params) {
         Arc::new(Redispatch { log: log.clone() }),
     ));
     let factory = TaskBlockingQueueSenderFactory::new(map.clone());
+    if p.reuse_address {
+        // e.g. a proxy that left the cluster and came back: controller and senders of the new
+        // life must still meet in one queue
+        let old_ctrl = map.get_blocking_queue("source:6379".to_string());
+        let old_sender = factory.create("source:6379".to_string());
+        drop(old_sender);
+        drop(old_ctrl);
+    }
     let ctrl = map.get_blocking_queue("source:6379".to_string());
     let senders_done = Arc::new(AtomicUsize::new(0));
     let blockers_done = Arc::new(AtomicUsize::new(0));
@@ -351,6 +361,7 @@ fn parse_params(plan: &Value) -> Params {
         senders,
         blockers: plan["blockers"].as_u64().unwrap_or(1) as usize,
         hold_yields: plan["hold_yields"].as_u64().unwrap_or(2) as usize,
+        reuse_address: plan["reuse_address"].as_bool().unwrap_or(false),
     }
 }
 
@@ -604,6 +615,7 @@ impl Check for ShuttleCheck {
             "iters": iters,
             "blockers": *rng.pick(&[1u64, 1, 1, 2]),
             "hold_yields": rng.range(0, 4),
+            "reuse_address": rng.chance(1, 3),
             "tasks": tasks,
         })
     }
